@@ -29,9 +29,12 @@ Two things are modelled here.
    equal for every guard that holds for a page and for a failure and not for io.EOF;
    `Props/FactsCheckC13.lean` shows the guards extracted from the source are of that kind.
 
-Not modelled: what the layers above `Pages` (`rowGroupRows.ReadRows`, `Reader`, `GenericReader`,
-`CopyRows`) do with the error of `ReadValues`/`ReadRows` (L1 only), `SeekToRow` of the wrappers (C08),
-`Close` errors. -/
+The same evaluator judges the second table, the callers of value / row readers (`ReadValues`,
+`ReadRows`, `readRows`: `rowGroupRows.ReadRows`, `Reader`, `GenericReader`, `CopyRows`, the merge /
+dedupe / filter / transform readers …): `FactsCheckC13.row_reader_callers_hand_the_error_on`; the
+error that `rowGroupRows.ReadRows` keeps in a field is `RowsState.lean`.
+
+Not modelled: `SeekToRow` of the wrappers (C08), `Close` errors. -/
 namespace PqModel.PageReaders
 open PqModel.PageLoad
 
@@ -103,24 +106,64 @@ abbrev Step := List String × String
 inductive Verdict where
   | handsOn      -- the error reaches the caller's caller (returned, wrapped, or sent to the consumer)
   | swallows     -- a branch that does not carry the error is taken, or nothing happens with it
-  | leaves       -- `break` / `continue` / end of the loop body: what happens next is outside the list
+  | leaves       -- `continue` / end of a loop body / a labelled jump: the next iteration overwrites it
   | unresolved   -- a condition about something else decides
+  | failsOther   -- the caller returns ANOTHER error its guard says is non-nil (`return werr`)
   deriving DecidableEq, Repr
 
 /-- outcomes that carry the error variable to the caller -/
 def carries (o : String) : Bool := o = "return-err" || o = "return-wrapped" || o = "send"
 
-/-- the first step whose guard holds decides -/
+/-- what an outcome means for the error when its step is taken. Since round 4 the extractor follows
+    an unlabeled `break` and the exit of a conditional loop into the statements behind the loop, so
+    `break` no longer appears for them; `iterate` = the loop goes round again, `falls-off` = the end of a
+    function is reached (the error is dropped). -/
+def outcomeVerdict (o : String) : Verdict :=
+  if carries o then .handsOn
+  else if o = "return-other-err" then .failsOther
+  else if o = "break" || o = "continue" || o = "end" || o = "iterate" then .leaves
+  else .swallows
+
+/-- the first step whose guard holds decides; `store` (`x.f = err`: the error is kept in a field and
+    execution goes on) does not decide -/
 def verdict (s : Sit) : List Step → Verdict
   | [] => .swallows
   | (g, o) :: rest =>
+    if o = "store" then verdict s rest else
     match holds s g with
-    | some true =>
-      if carries o then .handsOn
-      else if o = "break" || o = "continue" || o = "end" then .leaves
-      else .swallows
+    | some true => outcomeVerdict o
     | some false => verdict s rest
     | none => .unresolved
+
+/-- every way the list can go when a condition about something else may turn out either way (an
+    over-approximation: later guards are not correlated with the choice) -/
+def verdicts (s : Sit) : List Step → List Verdict
+  | [] => [.swallows]
+  | (g, o) :: rest =>
+    if o = "store" then verdicts s rest else
+    match holds s g with
+    | some true => [outcomeVerdict o]
+    | some false => verdicts s rest
+    | none => outcomeVerdict o :: verdicts s rest
+
+/-- `verdict` is one of the `verdicts` unless it is unresolved, in which case `verdicts` went on -/
+theorem verdict_mem_verdicts (s : Sit) : ∀ (steps : List Step), verdict s steps ≠ .unresolved →
+    verdict s steps ∈ verdicts s steps
+  | [], _ => by simp [verdict, verdicts]
+  | (g, o) :: rest, h => by
+    unfold verdict verdicts at *
+    by_cases ho : o = "store"
+    · simp only [ho, if_true] at h ⊢
+      exact verdict_mem_verdicts s rest h
+    · simp only [ho, if_false] at h ⊢
+      cases hg : holds s g with
+      | none => simp [hg] at h
+      | some b =>
+        cases b with
+        | true => simp
+        | false =>
+          simp only [hg] at h
+          exact verdict_mem_verdicts s rest h
 
 /-- the caller got a failure: non-nil, not io.EOF -/
 def failed (pageNil : Bool) : Sit := { errNil := false, errEOF := false, pageNil }
